@@ -306,7 +306,9 @@ class Project(object):
             return "%s.%s" % (self.method_of, self.function_name)
         if kind == "function":
             return self.function_name
-        return DEF_NAMES[kind]
+        return (self.names or {}).get(kind, DEF_NAMES[kind])
+
+    names = None  # optional {kind: dotted name} overriding the default definition names (e.g. a nested class)
 
     def name_path(self, kind):
         return self.name_of(kind).split(".")
